@@ -22,6 +22,20 @@ NON_ELITIST = {
     "BrainStormOptimization", "ImprovedBrainStormOptimization", "HenryGasSolubilityOptimization",
 }
 
+# conditionally elitist: listed above because ONE configuration shape breaks the argument; elitist otherwise
+def elitist(opt: str, cfg: dict) -> bool:
+    """is the run of `opt` under configuration dictionary `cfg` structurally elitist (C17 applies)?"""
+    if opt == "ElephantHerdOptimization":
+        # greedy clan update, then the WORST of every clan of n_individuals = population_size // n_clans elephants is replaced:
+        # with at least two elephants per clan the worst is never the only holder of the best cost (the residual group is
+        # left alone)
+        try:
+            return int(cfg["population_size"] / cfg["n_clans"]) >= 2
+        except Exception:
+            return False
+    return opt not in NON_ELITIST
+
+
 # optimizers whose step is "every agent is replaced in place by the winner of a greedy comparison with its own candidate"
 # (refinement X.slotwise of spec/AlgoRel.tla; the source calls _greedy_select_agent and no surveyed run ever worsened a slot)
 GREEDY_EACH: set[str] = {
